@@ -140,3 +140,42 @@ pub fn gen_dag(r: &mut Rng, cfg: &DagCfg) -> Dag {
 pub fn gen_point(r: &mut Rng, nvars: usize, p_special: f64) -> Vec<f32> {
     (0..nvars).map(|_| gen_f32(r, p_special)).collect()
 }
+
+/// Minimized past failures and hand-made corner cases; always run first.
+pub fn corpus() -> Vec<(Dag, Vec<Vec<f32>>)> {
+    let mut out = vec![];
+    // D11: constants created BEFORE the variable end up on the left of commutative ops,
+    // and SsaTape::new swaps them into the RegImm form: min(0, x) at x = -0
+    for c in [0.0f32, -0.0] {
+        let mut ctx = Context::new();
+        let k = ctx.constant(c);
+        let x = ctx.x();
+        let y = ctx.y();
+        let a = ctx.min(k, x).unwrap();
+        let b = ctx.max(k, x).unwrap();
+        let d = ctx.add(k, x).unwrap();
+        let e = ctx.mul(x, y).unwrap();
+        let f = ctx.min(e, k).unwrap();
+        out.push((Dag { ctx, roots: vec![a, b, d, f], vs: vec![] },
+                  vec![vec![-0.0, 1.0, 0.0], vec![0.0, -1.0, 0.0], vec![-0.0, -0.0, 0.0], vec![3.0, 0.0, 0.0]]));
+    }
+    // D1: several outputs sharing choices
+    {
+        let mut ctx = Context::new();
+        let x = ctx.x(); let y = ctx.y();
+        let a = ctx.min(x, y).unwrap();
+        let b = ctx.max(x, y).unwrap();
+        out.push((Dag { ctx, roots: vec![a, b, a], vs: vec![] }, vec![vec![1.0, 2.0, 0.0], vec![2.0, 1.0, 0.0], vec![1.0, 1.0, 0.0]]));
+    }
+    // D2: nested choices (more than one clause)
+    {
+        let mut ctx = Context::new();
+        let x = ctx.x(); let y = ctx.y(); let z = ctx.z();
+        let a = ctx.min(x, y).unwrap();
+        let b = ctx.max(a, z).unwrap();
+        let c = ctx.and(b, x).unwrap();
+        let d = ctx.or(c, 2.0).unwrap();
+        out.push((Dag { ctx, roots: vec![d], vs: vec![] }, vec![vec![1.0, 2.0, 3.0], vec![0.0, 0.0, 0.0], vec![-1.0, 5.0, -7.0]]));
+    }
+    out
+}
